@@ -254,6 +254,7 @@ impl World {
         let en_atoms = rng.chance(30);
         let en_dummy = rng.chance(40);
         let en_ymarks = rng.chance(30);
+        let en_heap = rng.chance(30);
         p.allow_replace = en_replace;
         p.max_restarts = if en_restart { 1 + rng.below(2) as u8 } else { 0 };
         p.boundary_fault_pct = if en_replace || en_restart { 10 + rng.below(25) as u32 } else { 0 };
@@ -292,6 +293,7 @@ impl World {
                 atoms: if en_atoms { rng.below(9) as u8 } else { 0 },
                 dummy_cnt: if en_dummy { rng.below(6) as u8 } else { 0 },
                 yield_marks: if en_ymarks { rng.below(3) as u8 } else { 0 },
+                heap: if en_heap { rng.below(9) as u8 } else { 0 },
                 seed: rng.next() % 100_000,
             };
             p.tasks.push(t);
